@@ -75,6 +75,9 @@ class BaseParser:
         self.forward_refs: Dict[
             str, Tuple[ForwardRef, dict]
         ] = {}  # store unresolved ref
+        # the parser in whose namespace a pending reference is to be evaluated, when it is not this one
+        # (an annotation inherited from a class of another module)
+        self.forward_owners: Dict[str, "BaseParser"] = {}
         self.fields: Dict[str, ParserField] = {}
         self.annotations: Dict[str, Any] = {}
         self.exclude_vars: Set[str] = set()
@@ -117,14 +120,21 @@ class BaseParser:
             # including typing.GenericAlias / ForwardRef
             self.addition_type = self.parse_annotation(annotation=self.options.addition)
 
-    def parse_annotation(self, annotation):
-        return self.rule_cls.parse_annotation(
+    def parse_annotation(self, annotation, owner: "BaseParser" = None):
+        # owner: the parser in whose namespace the annotation was written, when it is not this one
+        pending = set(self.forward_refs)
+        parsed = self.rule_cls.parse_annotation(
             annotation=annotation,
             forward_refs=self.forward_refs,
-            global_vars=self.globals,
+            global_vars=owner.globals if owner else self.globals,
             force_clear_refs=self.force_clear_refs,
             bound=self.bound
         )
+        if owner:
+            for name in set(self.forward_refs).difference(pending):
+                # still pending: to be evaluated in that namespace later
+                self.forward_owners[name] = owner
+        return parsed
 
     @cached_property
     def property_fields(self):
@@ -238,7 +248,9 @@ class BaseParser:
                 try:
                     # an evaluation found in the (shared) object may come from another declaration
                     ref.__forward_evaluated__ = False
-                    evaluate_forward_ref(ref, self.globals, local_vars)
+                    owner = self.forward_owners.get(name)
+                    global_vars = owner.globals if owner else self.globals
+                    evaluate_forward_ref(ref, global_vars, local_vars)
                     if ref.__forward_evaluated__:
                         # evaluated successfully, pop
                         value = ref.__forward_value__
@@ -253,7 +265,7 @@ class BaseParser:
                             ref.__forward_value__ = self.rule_cls.parse_annotation(
                                 annotation=value,
                                 constraints=constraints,
-                                global_vars=self.globals,
+                                global_vars=global_vars,
                                 forward_refs=self.forward_refs,
                                 forward_key=name,
                             )
